@@ -376,12 +376,18 @@ def apply_to_facts(F):
         if fr is None:
             return None
         r = fr.get("res") or {}
+        # a std combinator called at fully concrete types inside a polymorphic body (`find_tag(T::ID)?` on an
+        # `Option<&DynSizedStructure<TagHeader>>`): its monomorphic MIR is the one the driver emitted for that very instance
+        if k is not None and k in F.std_insts and is_transparent(F.std_insts[k]):
+            return F.std_insts[k]
         p = r.get("path") or fr.get("path")
         kk = by_path.get(p)
         return F.fns.get(kk) if kk else None
     poly_helpers = [k for k, v in F.fns.items() if is_helper(v)]
     if True:
-        inl2 = Inliner(F.fns, lookup_fn, policy=is_helper, poly=True)
+        table2 = dict(F.std_insts)
+        table2.update(F.fns)
+        inl2 = Inliner(table2, lookup_fn, policy=lambda fn: is_helper(fn) or bool(fn.get("std") and is_transparent(fn)), poly=True)
         for k in list(F.fns):
             if is_helper(F.fns[k]):
                 continue
